@@ -1,4 +1,4 @@
 CONSTANTS MaxRounds = 60 Family = "small"
-INIT Init
-NEXT Next
+SPECIFICATION Spec
 INVARIANTS RoundsBounded StackOK DonePinsOK DoneLaws Emit
+PROPERTY EventuallyStops
